@@ -78,6 +78,11 @@ def streams(tier, rng, P, only=None, cases=None):
             else:
                 b = layout(rng, toks); kind = "layout"
             cs.append(dict(req="compile2 %s %s" % (hx(a), hx(b)), src=a, src2=b, show="%s   vs   %r" % (a[:150], b[:200]), ntok=len(toks), kind=kind, key="l%d" % i))
+        # full-width forms of the sutoton definition syntax and of whole command lines
+        for j, (a, b) in enumerate([("~{ぱ}={g} l4 ドレミ ぱレミ", "～{ぱ}={g} l4 ドレミ ぱレミ"), ("~{ぱ}={g} l4 ドレミ ぱレミ", "～{ぱ}={g}　ｌ４　ドレミ　ぱレミ"),
+                                    ("l8 c d e [2 f g] o5 a", "ｌ８　ｃ　ｄ　ｅ　［２　ｆ　ｇ］　ｏ５　ａ"), ("v100 q80 c4. d8 r", "ｖ１００　ｑ８０　ｃ４．　ｄ８　ｒ"),
+                                    ("TR(2) c ; TR(1) d", "ＴＲ（２）　ｃ　；　ＴＲ（１）　ｄ"), ("~{x1}={[2 e]} x1 c", "～{x1}={[2 e]} x1 c")]):
+            cs.append(dict(req="compile2 %s %s" % (hx(a), hx(b)), src=a, src2=b, show="%r vs %r" % (a, b), ntok=3, kind="wide", key="fw%d" % j))
         for sep in SEPS + [" //x\n", " /*x*/ ", "\n##x\n", "\n# x\n", "\n#-x\n"]:
             for cmd in ["c", "l8", "v100", "y7,100;", "TR(2)", "[2 c]", "n60,4"]:
                 a = cmd + " e"; b = cmd + sep + "e"
